@@ -52,7 +52,7 @@ def out_offsets(L):
 
 def sub_shape(L, s):
     nr = L['outs'][s['of'] - 1]['sz']
-    nc = L['ins'][s['wrt'][1] - 1]['sz'] if s['wrt'][0] == 'in' else L['outs'][s['wrt'][1] - 1]['sz']
+    nc = L['ins'][s['wrt']['i'] - 1]['sz'] if s['wrt']['k'] == 'in' else L['outs'][s['wrt']['i'] - 1]['sz']
     return nr, nc
 
 
@@ -85,11 +85,11 @@ def ref_asm(L, q):
     for si, s in enumerate(L['subs']):
         m = sub_dense(L, si, q)
         r0 = offs[s['of'] - 1]
-        if s['wrt'][0] == 'out':
-            c0 = offs[s['wrt'][1] - 1]
+        if s['wrt']['k'] == 'out':
+            c0 = offs[s['wrt']['i'] - 1]
             A[r0:r0 + m.shape[0], c0:c0 + m.shape[1]] += m
         else:
-            inp = L['ins'][s['wrt'][1] - 1]
+            inp = L['ins'][s['wrt']['i'] - 1]
             c0 = offs[inp['src'] - 1]
             ssz = L['outs'][inp['src'] - 1]['sz']
             idx = inp['idx'] if inp['idx'] else list(range(inp['sz']))
@@ -164,7 +164,7 @@ def comp_classes():
             for si in self.mysubs:
                 s = L['subs'][si]
                 of = L['outs'][s['of'] - 1]['n']
-                wrt = (L['ins'] if s['wrt'][0] == 'in' else L['outs'])[s['wrt'][1] - 1]['n']
+                wrt = (L['ins'] if s['wrt']['k'] == 'in' else L['outs'])[s['wrt']['i'] - 1]['n']
                 v = make_val(self, si, 0)
                 if s['kind'] == 'dense':
                     self.declare_partials(of, wrt, val=v)
@@ -181,7 +181,7 @@ def comp_classes():
             for si in self.mysubs:
                 s = L['subs'][si]
                 of = L['outs'][s['of'] - 1]['n']
-                wrt = (L['ins'] if s['wrt'][0] == 'in' else L['outs'])[s['wrt'][1] - 1]['n']
+                wrt = (L['ins'] if s['wrt']['k'] == 'in' else L['outs'])[s['wrt']['i'] - 1]['n']
                 partials[of, wrt] = make_val(self, si, self.q)
 
     class EC(Mixin, om.ExplicitComponent):
@@ -220,10 +220,21 @@ class NotApplicable(Exception):
     pass
 
 
+def owner_indices(L, place):
+    """spec positions of the outputs owned by the assembling system"""
+    offs, n = out_offsets(L)
+    return [j for k, o in enumerate(L['outs']) if place == 'top' or o['c'] != 0 for j in range(offs[k], offs[k] + o['sz'])]
+
+
+def nonsingular(L, place, nq):
+    idx = owner_indices(L, place)
+    return all(abs(np.linalg.det(ref_asm(L, q)[np.ix_(idx, idx)])) > 1e-6 for q in range(0, nq + 1))
+
+
 class Real:
     """A real Problem realising layout L with storage format / solver placement `variant`."""
 
-    def __init__(self, L, variant):
+    def __init__(self, L, variant, nq=2):
         import openmdao.api as om
         EC, IC = comp_classes()
         fmt, place = variant
@@ -249,19 +260,37 @@ class Real:
         self.owner = owner = m if place == 'top' else g
         # a gradient-based nonlinear solver is what makes OpenMDAO allocate complex LINEAR vectors (it is never run)
         owner.nonlinear_solver = om.NewtonSolver(solve_subsystems=False)
+        self.solver = None
         if fmt in ('dense', 'csc'):
-            owner.linear_solver = om.DirectSolver(assemble_jac=True)
+            # DirectSolver factorises at every linearisation and refuses singular matrices; an iterative solver that
+            # only holds the assembled Jacobian is used for those layouts
+            if nonsingular(L, place, nq):
+                owner.linear_solver = om.DirectSolver(assemble_jac=True)
+                self.solver = 'DirectSolver'
+            else:
+                owner.linear_solver = om.ScipyKrylov(assemble_jac=True)
+                self.solver = 'ScipyKrylov'
             owner.options['assembled_jac_type'] = fmt
         elif fmt in ('csr', 'coo'):
-            owner.linear_solver = om.ScipyKrylov(assemble_jac=True)
+            owner.linear_solver = om.ScipyKrylov(assemble_jac=True)       # DirectSolver refuses a csr matrix
             owner.options['assembled_jac_type'] = 'csr'
+            self.solver = 'ScipyKrylov'
         elif fmt == 'dict':
             owner.linear_solver = om.LinearRunOnce()
+            self.solver = 'LinearRunOnce'
         elif fmt == 'dict-direct':
+            if not nonsingular(L, place, nq):
+                raise NotApplicable('DirectSolver(assemble_jac=False) needs a nonsingular group matrix')
             owner.linear_solver = om.DirectSolver(assemble_jac=False)
+            self.solver = 'DirectSolver(assemble_jac=False)'
         else:
             raise MachineryError('unknown format %r' % fmt)
-        p.setup(force_alloc_complex=True)
+        try:
+            p.setup(force_alloc_complex=True)
+        except RuntimeError as e:
+            if L.get('rcdup') and 'duplicate subjacobian entries' in str(e):
+                raise NotApplicable('declare_partials refuses duplicated rows/cols entries')
+            raise
         p.final_setup()
         if fmt == 'coo':
             # no option selects the COO matrix class; it is the base of CSC/CSR and is exercised by installing a
@@ -315,7 +344,7 @@ class Real:
         raise MachineryError('unknown action %r' % (ev,))
 
     def matrices(self, A, q):
-        """[(label, observed, expected)] for the assembled matrices of the owner (nothing for matrix-free)"""
+        """[(label, observed, expected, spec rows)] for the assembled matrices of the owner (none if matrix-free)"""
         L, S = self.L, self.owner
         j = S._assembled_jac
         if j is None:
@@ -323,34 +352,401 @@ class Real:
         out = []
         offs, n = out_offsets(L)
         pre = S.pathname + '.' if S.pathname else ''
-        # spec indices of the owner's outputs in the owner's own order
+        names = [out_name(L, k + 1) for k in range(len(L['outs']))]
         mine = []
-        for name, info in S._outputs._views.items():
-            i = [k for k in range(len(L['outs'])) if out_name(L, k + 1) == name][0]
+        for name in S._outputs._views:
+            i = names.index(name)
             mine.extend(range(offs[i], offs[i] + L['outs'][i]['sz']))
         mine = np.array(mine, dtype=int)
         if j._dr_do_mtx is not None:
-            got = np.asarray(j._dr_do_mtx.todense())
-            out.append(('dr/do', got, A[np.ix_(mine, mine)]))
+            out.append(('dr/do', np.asarray(j._dr_do_mtx.todense()), A[np.ix_(mine, mine)], mine))
         want = np.zeros((len(mine), len(S._inputs)))
         pos = {int(g): k for k, g in enumerate(mine)}
         anyext = False
         for si, s in enumerate(L['subs']):
-            if s['wrt'][0] != 'in':
+            if s['wrt']['k'] != 'in':
                 continue
-            inp = L['ins'][s['wrt'][1] - 1]
-            if out_name(L, inp['src']) in S._outputs._views or not in_name(L, s['wrt'][1]).startswith(pre):
+            inp = L['ins'][s['wrt']['i'] - 1]
+            if out_name(L, inp['src']) in S._outputs._views or not in_name(L, s['wrt']['i']).startswith(pre):
                 continue
             anyext = True
             r0 = pos[offs[s['of'] - 1]]
-            a, b = S._inputs._views[in_name(L, s['wrt'][1])].range
+            a, b = S._inputs._views[in_name(L, s['wrt']['i'])].range
             blk = sub_dense(L, si, q)
             want[r0:r0 + blk.shape[0], a:b] += blk
         if j._dr_di_mtx is not None:
-            out.append(('dr/di', np.asarray(j._dr_di_mtx.todense()), want))
+            out.append(('dr/di', np.asarray(j._dr_di_mtx.todense()), want, mine))
         elif anyext:
-            out.append(('dr/di', np.zeros((0, 0)), want))
+            out.append(('dr/di', np.zeros((0, 0)), want, mine))
         return out
 
 
-DEMO_LAYOUT = None
+def close(got, want):
+    got, want = np.asarray(got), np.asarray(want)
+    return got.shape == want.shape and bool(np.all(np.abs(got - want) <= ATOL * (1.0 + np.abs(want))))
+
+
+def cplx_list(v):
+    v = np.asarray(v)
+    if np.iscomplexobj(v) and np.any(v.imag != 0):
+        return [[float(x.real), float(x.imag)] for x in v.ravel()]
+    return [float(x) for x in np.real(v).ravel()]
+
+
+def replay(L, variant, hist, nq=2):
+    """run one history on one variant; stop at the first disagreement.
+    -> {'status': 'ok' | 'na' | 'fail', 'steps': number of actions executed, 'fail': {...}, 'solver': ..}"""
+    import traceback
+    try:
+        R = Real(L, tuple(variant), nq)
+    except NotApplicable as e:
+        return {'status': 'na', 'why': str(e), 'steps': 0}
+    q = 0
+    cplx = False
+    for k, ev in enumerate(hist):
+        try:
+            out = R.step(ev)
+        except MachineryError:
+            raise
+        except Exception as e:
+            fr = traceback.extract_tb(e.__traceback__)[-1]
+            return {'status': 'fail', 'steps': k, 'solver': R.solver, 'fail': {
+                'step': k, 'ev': {x: ev[x] for x in ev if x not in ('asm', 're', 'im')}, 'cplx': cplx, 'kind': 'raised',
+                'clause': '%s raised %s' % (ev['a'], type(e).__name__),
+                'exc': type(e).__name__, 'msg': str(e)[:300], 'file': os.path.basename(fr.filename), 'func': fr.name,
+                'line': fr.lineno, 'expected': 'accepted', 'observed': '%s: %s' % (type(e).__name__, str(e)[:300])}}
+        if ev['a'] == 'SetComplex':
+            cplx = bool(ev['b'])
+        elif ev['a'] == 'Linearize':
+            q = ev['q']
+            A = np.array(ev['asm'], dtype=float)
+            for label, got, want, rows in R.matrices(A, q):
+                if not close(got, want):
+                    bad = []
+                    if got.shape == want.shape:
+                        bi, bj = np.nonzero(np.abs(got - want) > ATOL * (1.0 + np.abs(want)))
+                        bad = [[int(rows[i]), int(j)] for i, j in zip(bi, bj)]
+                    return {'status': 'fail', 'steps': k + 1, 'solver': R.solver, 'fail': {
+                        'step': k, 'ev': {'a': 'Linearize', 'q': q}, 'cplx': cplx, 'kind': 'matrix', 'which': label,
+                        'clause': 'assembled %s matrix after Linearize differs from Asm(latest values)' % label,
+                        'bad_rows': sorted({b[0] for b in bad}), 'ncells': len(bad),
+                        'expected': want.tolist(), 'observed': np.real(got).tolist() if got.size else 'no matrix'}}
+        elif ev['a'] == 'Apply':
+            want = np.array(ev['re'], dtype=float) + 1j * np.array(ev['im'], dtype=float)
+            if not close(out, want):
+                bad = [int(i) for i in np.nonzero(np.abs(out - want) > ATOL * (1.0 + np.abs(want)))[0]]
+                return {'status': 'fail', 'steps': k + 1, 'solver': R.solver, 'fail': {
+                    'step': k, 'ev': {x: ev[x] for x in ('a', 'mode', 'sd')}, 'cplx': cplx, 'kind': 'product',
+                    'clause': 'product in %s mode differs from %s' % (ev['mode'], 'Asm.v' if ev['mode'] == 'fwd' else 'Asm^T.v'),
+                    'bad_rows': bad, 'expected': cplx_list(want), 'observed': cplx_list(out)}}
+    return {'status': 'ok', 'steps': len(hist), 'solver': R.solver}
+
+
+def _worker(jobs):
+    quiet()
+    out = []
+    for L, variant, hist, nq in jobs:
+        out.append(replay(L, variant, hist, nq))
+    return out
+
+
+# ---- recognisers of the defects found with this check (for known_findings.json) ------------------------------------
+def has_kind(L, kind):
+    return any(s['kind'] == kind for s in L['subs'])
+
+
+def factor_conflict_rows(L):
+    """spec rows (0-based positions of `of` variables) of blocks (of, source) that hold a DENSE sub-Jacobian read through
+    src_indices with a unit factor together with another sub-Jacobian of the same (of, source) block"""
+    offs, n = out_offsets(L)
+    rows = set()
+    for si, s in enumerate(L['subs']):
+        if s['kind'] != 'dense' or s['wrt']['k'] != 'in':
+            continue
+        inp = L['ins'][s['wrt']['i'] - 1]
+        if inp['fac'] == 1 or not inp['idx']:
+            continue
+        for sj, t in enumerate(L['subs']):
+            if sj == si or t['of'] != s['of']:
+                continue
+            tsrc = L['ins'][t['wrt']['i'] - 1]['src'] if t['wrt']['k'] == 'in' else t['wrt']['i']
+            if tsrc == inp['src']:
+                rows.update(range(offs[s['of'] - 1], offs[s['of'] - 1] + L['outs'][s['of'] - 1]['sz']))
+    return rows
+
+
+def src_cols(L):
+    """positions of source variables of the conflicting blocks"""
+    offs, n = out_offsets(L)
+    cols = set()
+    for s in L['subs']:
+        if s['kind'] == 'dense' and s['wrt']['k'] == 'in':
+            inp = L['ins'][s['wrt']['i'] - 1]
+            if inp['fac'] != 1 and inp['idx']:
+                cols.update(range(offs[inp['src'] - 1], offs[inp['src'] - 1] + L['outs'][inp['src'] - 1]['sz']))
+    return cols
+
+
+def pred_coo_set_dtype(scn, info):
+    """a scipy COO sub-Jacobian cannot change dtype: Linearize under complex step raises in COOSubjac.set_dtype"""
+    f = scn['failed']
+    return (f['kind'] == 'raised' and f['ev']['a'] == 'Linearize' and f['exc'] == 'TypeError' and f['file'] == 'subjac.py'
+            and f['func'] == 'set_dtype' and has_kind(scn['layout'], 'coo'))
+
+
+def pred_rowscols_bincount(scn, info):
+    """a rows/cols sub-Jacobian is applied with np.bincount, which refuses complex weights"""
+    f = scn['failed']
+    return (f['kind'] == 'raised' and f['cplx'] and f['exc'] == 'TypeError' and f['file'] == 'subjac.py'
+            and f['func'].startswith('_apply_') and 'complex128' in f['msg'] and has_kind(scn['layout'], 'rc')
+            and scn['variant'][0] in ('dict', 'dict-direct'))
+
+
+def pred_rev_transfer_bincount(scn, info):
+    """the reverse transfer scatters with np.bincount, which refuses complex weights"""
+    f = scn['failed']
+    return (f['kind'] == 'raised' and f['cplx'] and f['exc'] == 'TypeError' and f['file'] == 'default_transfer.py'
+            and f['func'] == '_transfer' and 'complex128' in f['msg'] and f['ev'].get('mode') == 'rev')
+
+
+def pred_dense_factor_block(scn, info):
+    """DenseMatrix scales the whole (of, source) block by the unit factor of one dense sub-Jacobian"""
+    f = scn['failed']
+    L = scn['layout']
+    if scn['variant'][0] != 'dense' or f['kind'] not in ('matrix', 'product'):
+        return False
+    rows = factor_conflict_rows(L)
+    if not rows:
+        return False
+    if f['kind'] == 'matrix':
+        return f.get('which') == 'dr/do' and bool(f['bad_rows']) and set(f['bad_rows']) <= rows
+    if f['ev']['mode'] == 'fwd':
+        return bool(f['bad_rows']) and set(f['bad_rows']) <= rows
+    return bool(f['bad_rows']) and set(f['bad_rows']) <= src_cols(L)
+
+
+PREDICATES = {'C11-coo-subjac-set-dtype': pred_coo_set_dtype,
+              'C11-rowscols-bincount-complex': pred_rowscols_bincount,
+              'C11-rev-transfer-bincount-complex': pred_rev_transfer_bincount,
+              'C11-dense-matrix-factor-block': pred_dense_factor_block}
+
+
+def classify(scn):
+    for k, pr in PREDICATES.items():
+        try:
+            if pr(scn, {}):
+                return k
+        except Exception:
+            pass
+    return 'unclassified'
+
+
+# ---- random layouts --------------------------------------------------------------------------------------------------
+def gen_layout(rnd, name):
+    KINDS = ['dense', 'rc', 'diag', 'coo', 'csr', 'csc']
+    while True:
+        outs, ins = [], []
+        for c in (0, 1, 2):
+            for k in range(rnd.choice((1, 1, 2)) if c == 0 else rnd.choice((1, 2))):
+                outs.append({'c': c, 'n': 'o%d' % (k + 1), 'sz': rnd.randint(1, 3), 'u': rnd.choice(('km', 'none'))})
+        if sum(o['sz'] for o in outs) > 12:
+            continue
+        for c in (1, 2):
+            for k in range(rnd.randint(1, 3)):
+                cand = [i + 1 for i, o in enumerate(outs) if o['c'] != c]
+                src = rnd.choice(cand)
+                ssz = outs[src - 1]['sz']
+                form = rnd.choice(('full', 'idx', 'idx', 'neg'))
+                if form == 'full':
+                    sz, idx = ssz, []
+                else:
+                    sz = rnd.randint(1, 3)
+                    lo = -ssz if form == 'neg' else 0
+                    idx = [rnd.randint(lo, ssz - 1) for _ in range(sz)]
+                fac = rnd.choice((1, 1000)) if outs[src - 1]['u'] == 'km' else 1
+                ins.append({'c': c, 'n': 'i%d' % (k + 1), 'sz': sz, 'src': src, 'idx': idx, 'fac': fac})
+        impl = sorted(c for c in (1, 2) if rnd.random() < 0.5)
+        subs = []
+        for oi, o in enumerate(outs):
+            if o['c'] == 0:
+                continue
+            wrts = [('in', ii + 1, inp['sz']) for ii, inp in enumerate(ins) if inp['c'] == o['c']]
+            if o['c'] in impl:
+                wrts += [('out', oj + 1, p['sz']) for oj, p in enumerate(outs) if p['c'] == o['c']]
+            for (k, i, nc) in wrts:
+                own = k == 'out' and i == oi + 1
+                if not own and rnd.random() < 0.25:
+                    continue
+                nr = o['sz']
+                kind = rnd.choice(KINDS)
+                if kind == 'diag' and nr != nc:
+                    kind = 'dense'
+                pat = []
+                if kind in ('rc', 'coo', 'csr', 'csc'):
+                    cells = [[r, c] for r in range(nr) for c in range(nc)]
+                    rnd.shuffle(cells)
+                    pat = cells[:rnd.randint(1, len(cells))]
+                    if own:     # keep the diagonal of an implicit component's own block populated
+                        pat += [[r, r] for r in range(nr) if [r, r] not in pat]
+                    if kind == 'coo' and rnd.random() < 0.6:
+                        pat = pat + [rnd.choice(pat)]
+                subs.append({'of': oi + 1, 'wrt': {'k': k, 'i': i}, 'kind': kind, 'pat': pat})
+        if not subs:
+            continue
+        return {'name': name, 'rcdup': False, 'outs': outs, 'ins': ins, 'impl': impl, 'subs': subs}
+
+
+def layout_to_tla(L):
+    d = dict(L)
+    d['impl'] = set(L['impl'])
+    return to_tla(d)
+
+
+SNIPPET = 'replay with: ./check C11 --replay <this file>   (scenario = layout + storage format/placement + history)'
+
+
+def strip(hist):
+    return [{k: v for k, v in ev.items() if k != 'asm'} for ev in hist]
+
+
+def run(ctx):
+    import collections
+    import random
+    quick = ctx.tier == 'quick'
+    workers = int(os.environ.get('VF_C11_WORKERS', min(16, os.cpu_count() or 1)))
+    nq, depth = 2, 6
+    ctx.register_predicates(PREDICATES)
+
+    if getattr(ctx, 'replay', None):
+        with open(ctx.replay) as fh:
+            rec = json.load(fh)
+        scn = rec['scenario']
+        quiet()
+        r = replay(scn['layout'], scn['variant'], scn['history'], nq)
+        print('replay: %s' % json.dumps({k: v for k, v in r.items() if k != 'fail'}))
+        if r['status'] == 'fail':
+            f = r['fail']
+            ctx.violation(dict(scn, failed={k: f[k] for k in f if k not in ('expected', 'observed')}), f['expected'], f['observed'],
+                          f['clause'], snippet=SNIPPET)
+        ctx.impl = 1
+        ctx.sample({'replayed': ctx.replay, 'status': r['status']})
+        ctx.rule = 'replay of one stored scenario'
+        return
+
+    # 1. layouts: the fixed ones live in JacobianMC.tla, seeded random ones are added in a generated module
+    rnd = random.Random(1000 + ctx.seed)
+    gen = [gen_layout(rnd, 'G%d' % (k + 1)) for k in range(2 if quick else 12)]
+    mod = os.path.join(ctx.work, 'JacobianGen.tla')
+    with open(mod, 'w') as fh:
+        fh.write('---- MODULE JacobianGen ----\nEXTENDS JacobianMC\nGenLayouts == AllLayouts \\o <<\n  %s\n>>\n====\n'
+                 % ',\n  '.join(layout_to_tla(L) for L in gen))
+    head = 'CONSTANTS\n  Layouts <- GenLayouts\n  NQ = %d\n  Depth = %d\nINIT Init\nNEXT Next\n' % (nq, depth)
+    # 2. the design: every format denotes Asm(latest values) and computes its products, in every reachable state
+    cfg = ctx.write_cfg('JacobianGen.cfg', head + 'VIEW View\nINVARIANT TypeOK\nINVARIANT Denotes\nINVARIANT FormatsAgree\n'
+                                                  'INVARIANT Adjoint\n')
+    r = ctx.tlc_check(mod, cfg, timeout=1500, workers=workers)
+    ctx.require_actions(['Linearize', 'SetComplex', 'Apply'])
+    scn = r.exports('SCN')
+    if not scn:
+        raise MachineryError('no layout export')
+    layouts = scn[0] + gen
+    # 3. histories with the exact expectations
+    ntraces = 30 if quick else 300
+    cfg = ctx.write_cfg('JacobianGen_sim.cfg', head + 'INVARIANT Export\n')
+    x = ctx.tlc_run(mod, cfg, simulate='num=%d' % ntraces, depth=depth + 1, seed=ctx.seed + 1, workers=1,
+                    timeout=600 if quick else 2400)
+    if x.error or 'traces generated' not in x.out:
+        raise MachineryError('simulation failed:\n' + x.tail())
+    beh = x.exports('EXP')
+    if len(beh) < ntraces:
+        raise MachineryError('simulation produced only %d behaviours:\n%s' % (len(beh), x.tail()))
+    # the oracle is itself checked: TLC's matrices and products against an independent numpy evaluation
+    for b in beh:
+        L = layouts[b['ly'] - 1]
+        q = 0
+        for ev in b['h']:
+            if ev['a'] == 'Linearize':
+                q = ev['q']
+                if not np.array_equal(np.array(ev['asm'], dtype=float), ref_asm(L, q)):
+                    raise MachineryError('spec and reference disagree on Asm for layout %s, q=%d' % (L['name'], q))
+            elif ev['a'] == 'Apply':
+                A = ref_asm(L, q)
+                v = seed_vec(ev['sd'], A.shape[0])
+                w = A @ v if ev['mode'] == 'fwd' else A.T @ v
+                if not (np.array_equal(w.real, np.array(ev['re'], dtype=float)) and np.array_equal(w.imag, np.array(ev['im'], dtype=float))):
+                    raise MachineryError('spec and reference disagree on a product for layout %s' % L['name'])
+    # simulation checks the invariant on every candidate successor, so the behaviours of one trace share their first
+    # depth-1 actions: merge them into one history  prefix . Applies . Linearizes . SetComplex  (Apply does not change
+    # the spec's state and Linearize is always enabled, so the merged history is a behaviour of the spec as well)
+    groups = collections.OrderedDict()
+    for b in beh:
+        key = (b['ly'], json.dumps(b['h'][:-1], sort_keys=True))
+        groups.setdefault(key, []).append(b['h'])
+    hists = []
+    for (ly, _), hs in groups.items():
+        last = {json.dumps(h[-1], sort_keys=True): h[-1] for h in hs}
+        order = {'Apply': 0, 'Linearize': 1, 'SetComplex': 2}
+        finals = sorted(last.values(), key=lambda e: (order[e['a']], e.get('mode', ''), e.get('sd', 0), e.get('q', 0)))
+        hists.append((ly, hs[0][:-1] + finals))
+    jobs = []
+    for ly, h in hists:
+        for v in VARIANTS:
+            jobs.append((layouts[ly - 1], v, h, nq))
+    nproc = min(workers, 16)
+    chunks = split(list(range(len(jobs))), nproc * 4)
+    res = pmap(_worker, [[jobs[j] for j in c] for c in chunks if c], nproc)
+    order = [j for c in chunks if c for j in c]
+    # 4. judge
+    stats = collections.Counter()
+    classes = collections.Counter()
+    na = collections.Counter()
+    solvers = collections.Counter()
+    nsteps = 0
+    for j, r in zip(order, [y for ys in res for y in ys]):
+        L, v, h, _ = jobs[j]
+        nsteps += r['steps']
+        stats['%s/%s:%s' % (v[0], v[1], r['status'])] += 1
+        if r['status'] == 'na':
+            na['%s: %s' % (L['name'] if L.get('rcdup') else v[0], r['why'])] += 1
+            continue
+        solvers['%s/%s: %s' % (v[0], v[1], r.get('solver'))] += 1
+        kinds = sorted({s['kind'] for s in L['subs']})
+        if any(e['a'] == 'SetComplex' for e in h) and sum(1 for e in h if e['a'] == 'Linearize') >= 2:
+            ctx.note_nontrivial('%s|%s|%s' % (L['name'], '/'.join(v), json.dumps(strip(h), sort_keys=True)))
+        if r['status'] == 'fail':
+            f = r['fail']
+            scn_ = {'layout': L, 'variant': list(v), 'history': h[:f['step'] + 1],
+                    'failed': {k: f[k] for k in f if k not in ('expected', 'observed')}}
+            classes[classify(scn_)] += 1
+            ctx.violation(scn_, f['expected'], f['observed'], '%s [%s/%s, layout %s, kinds %s%s]' % (
+                f['clause'], v[0], v[1], L['name'], ','.join(kinds), ', complex' if f['cplx'] else ''), snippet=SNIPPET)
+    ctx.impl = len(jobs) - sum(na.values())
+    ctx.evaluations = nsteps
+    ctx.exhaustive = False
+    ctx.extra['histories'] = len(hists)
+    ctx.extra['tlc_behaviours'] = len(beh)
+    ctx.extra['actions_replayed'] = nsteps
+    ctx.extra['variant_outcomes'] = dict(stats)
+    ctx.extra['failure_classes'] = dict(classes)
+    ctx.extra['not_applicable'] = dict(na)
+    ctx.extra['linear_solvers'] = dict(solvers)
+    ctx.extra['formats_not_exercised'] = [
+        "rows/cols sub-Jacobian with a duplicated entry: declare_partials raises RuntimeError (layout L4 is counted, not compared)",
+        "DirectSolver with assembled_jac_type='csr': DirectSolver._linearize raises 'not implemented for matrix type csr'; csr is "
+        "exercised through ScipyKrylov(assemble_jac=True)",
+        "coo: no assembled_jac_type selects COOMatrix; it is exercised by installing SplitJacobian(COOMatrix) on the group"]
+    for ly, h in hists[:2]:
+        ctx.sample({'layout': layouts[ly - 1]['name'], 'history': strip(h)[:8]})
+    ctx.sample({'layout': layouts[0]})
+    ctx.rule = ('TLC -simulate traces of depth %d over {Linearize(q in 1..%d), SetComplex, Apply(fwd|rev, 4 seed vectors)} on %d layouts '
+                '(4 fixed: every sub-Jacobian kind, coo duplicates, repeated and negative src_indices, factor 1000, overlapping '
+                'inputs, in-place dense path; %d seeded random ones); the candidate successors of every trace are merged into one '
+                'history; every history is replayed on a real Problem per (format, placement) in %s with the assembled matrices '
+                'read back after every Linearize and the product compared after every Apply; non-trivial = (layout, variant, '
+                'history) with a dtype switch and at least two linearisations' % (depth, nq, len(layouts), len(gen), VARIANTS))
+    ctx.assumptions = [
+        'values of the sub-Jacobians are real integers also in complex mode; vectors carry an imaginary part only in complex mode',
+        'products are taken only after a Linearize that follows the last dtype switch (as every OpenMDAO solver does)',
+        'complex linear vectors exist only below a gradient-based nonlinear solver: a NewtonSolver (never run) is attached',
+        'no relevance masks / scopes in Apply; serial (no MPI); DefaultVector only',
+        'rev-mode products on complex vectors are part of the spec although OpenMDAO\'s own solvers only solve fwd under complex step']
